@@ -651,6 +651,9 @@ impl Process {
             admissible(*old(h), *action) && guarded_event(action.event) && st_terminal(old(h).st(action.tid@)) ==> ret is Err && final(h).tasks == old(h).tasks
                 && final(h).queue == old(h).queue && final(h).task_events == old(h).task_events && final(h).proc_events == old(h).proc_events && final(h).msg_closed == old(h).msg_closed
                 && final(h).proc_state == old(h).proc_state,
+            //# B7-the-return-of-a-sub-process-is-not-refused-for-the-calling-acts-declared-outputs [C15]
+            old(h).has(action.tid@) && old(h).tasks[action.tid@].node.s_kind() == NodeKind::Act && !(action.event is Push) && waits_for_return(*old(h), action.tid@)
+                && ret is Err ==> final(h).ctx_log.len() > old(h).ctx_log.len(),
 //@@ loop 1
         invariant
             //# A3-options-filtered-so-far
